@@ -1948,7 +1948,7 @@ def blackbox_fallback(ctx):
     property is no longer shown.  For the properties about the two threads the search for a failing input can
     still go on against the real binary alone: forced-schedule sessions, and plain sessions with slices of a
     few milliseconds (many hand-overs per poll), each go to be answered once and followed by readyok."""
-    if ctx.prop not in ("C03", "C08", "C16", "C18") or ctx.bs.engine_error:
+    if ctx.prop not in ("C03", "C08", "C16", "C17", "C18") or ctx.bs.engine_error:
         return
     handover_sessions(ctx, 3, ctx.prop)
     poslines = ["position startpos"] + [o[4:] for o in C.genops("search", ctx.seed + 51, 6, 30) if o.startswith("pos ")]
